@@ -1280,4 +1280,15 @@ def x_timedelta(I, args, kw, node):
 
 
 import math as _math
-EXTERNALS_ATTR = {"datetime.datetime.min": lambda: Rec("datetime.min"), "math.pi": lambda: _math.pi}
+EXTERNALS_ATTR = {"datetime.datetime.min": lambda: Rec("datetime.min"), "math.pi": lambda: _math.pi,
+                  # Linux values of the flag constants the file lock uses (class A: only their distinctness matters)
+                  "os.O_CREAT": lambda: 64, "os.O_WRONLY": lambda: 1, "fcntl.LOCK_EX": lambda: 2, "fcntl.LOCK_NB": lambda: 4,
+                  "fcntl.LOCK_UN": lambda: 8, "errno.EAGAIN": lambda: 11, "errno.EACCES": lambda: 13}
+
+
+@external("sys.exc_info")
+def x_exc_info(I, args, kw, node):
+    h = getattr(I, "handling", None)
+    if h is None:
+        return (None, None, None)
+    return (None, h.exc, None)
